@@ -175,6 +175,155 @@ pub fn build(sh: &Shape) -> PushState {
     }
 }
 
+/// A second state with exactly the same (symbolic) contents as `st`, rebuilt value by value through
+/// references (no Item is cloned). Only valid for states produced by `build(sh)`.
+pub fn twin(st: &PushState, sh: &Shape) -> PushState {
+    let mut ints = Vec::with_capacity(NS + 1);
+    let mut i = 0;
+    while i < sh.ni {
+        ints.push(*st.int_stack.get(sh.ni - 1 - i).unwrap());
+        i += 1;
+    }
+    let mut flts = Vec::with_capacity(NS + 1);
+    i = 0;
+    while i < sh.nf {
+        flts.push(*st.float_stack.get(sh.nf - 1 - i).unwrap());
+        i += 1;
+    }
+    let mut bools = Vec::with_capacity(NS + 1);
+    i = 0;
+    while i < sh.nb {
+        bools.push(*st.bool_stack.get(sh.nb - 1 - i).unwrap());
+        i += 1;
+    }
+    let mut names: Vec<String> = Vec::with_capacity(NS);
+    i = 0;
+    while i < sh.nn {
+        names.push(String::from(NAMES[i]));
+        i += 1;
+    }
+    let mut code: Vec<Item> = Vec::with_capacity(NC + 2);
+    i = 0;
+    while i < sh.nc {
+        let mut it = Item::int(0);
+        if let (Item::Literal { push_type: PushType::Int { val } }, Some(Item::Literal { push_type: PushType::Int { val: src } })) =
+            (&mut it, st.code_stack.get(sh.nc - 1 - i))
+        {
+            *val = *src;
+        }
+        code.push(it);
+        i += 1;
+    }
+    let mut exec: Vec<Item> = Vec::with_capacity(NC + 2);
+    i = 0;
+    while i < sh.ne {
+        let mut it = Item::int(0);
+        if let (Item::Literal { push_type: PushType::Int { val } }, Some(Item::Literal { push_type: PushType::Int { val: src } })) =
+            (&mut it, st.exec_stack.get(sh.ne - 1 - i))
+        {
+            *val = *src;
+        }
+        exec.push(it);
+        i += 1;
+    }
+    let mut index: Vec<Index> = Vec::with_capacity(NX + 1);
+    i = 0;
+    while i < sh.nx {
+        let x = st.index_stack.get(sh.nx - 1 - i).unwrap();
+        index.push(Index { current: x.current, destination: x.destination });
+        i += 1;
+    }
+    let mut bvs: Vec<BoolVector> = Vec::with_capacity(NV + 1);
+    i = 0;
+    while i < sh.nbv {
+        let src = &st.bool_vector_stack.get(sh.nbv - 1 - i).unwrap().values;
+        let mut v = Vec::with_capacity(NL + 1);
+        let mut j = 0;
+        while j < sh.bvl[i] {
+            v.push(src[j]);
+            j += 1;
+        }
+        bvs.push(BoolVector::new(v));
+        i += 1;
+    }
+    let mut ivs: Vec<IntVector> = Vec::with_capacity(NV + 1);
+    i = 0;
+    while i < sh.niv {
+        let src = &st.int_vector_stack.get(sh.niv - 1 - i).unwrap().values;
+        let mut v = Vec::with_capacity(NL + 1);
+        let mut j = 0;
+        while j < sh.ivl[i] {
+            v.push(src[j]);
+            j += 1;
+        }
+        ivs.push(IntVector::new(v));
+        i += 1;
+    }
+    let mut fvs: Vec<FloatVector> = Vec::with_capacity(NV + 1);
+    i = 0;
+    while i < sh.nfv {
+        let src = &st.float_vector_stack.get(sh.nfv - 1 - i).unwrap().values;
+        let mut v = Vec::with_capacity(NL + 1);
+        let mut j = 0;
+        while j < sh.fvl[i] {
+            v.push(src[j]);
+            j += 1;
+        }
+        fvs.push(FloatVector::new(v));
+        i += 1;
+    }
+    let mut input: PushBuffer<PushMessage> = PushBuffer::new(BufferType::Queue, 2);
+    i = 0;
+    while i < sh.nin {
+        let m = st.input_stack.get(i).unwrap();
+        let mut h = Vec::with_capacity(NL + 1);
+        let mut b = Vec::with_capacity(NL + 1);
+        let mut j = 0;
+        while j < sh.inl[i] {
+            h.push(m.header.values[j]);
+            b.push(m.body.values[j]);
+            j += 1;
+        }
+        input.push(PushMessage::new(IntVector::new(h), BoolVector::new(b)));
+        i += 1;
+    }
+    let mut output: PushBuffer<PushMessage> = PushBuffer::new(BufferType::Queue, 2);
+    i = 0;
+    while i < sh.nout {
+        let m = st.output_stack.get(i).unwrap();
+        let mut h = Vec::with_capacity(2);
+        let mut b = Vec::with_capacity(2);
+        h.push(m.header.values[0]);
+        b.push(m.body.values[0]);
+        output.push(PushMessage::new(IntVector::new(h), BoolVector::new(b)));
+        i += 1;
+    }
+    let mut cfg = PushConfiguration::new();
+    cfg.min_random_integer = st.configuration.min_random_integer;
+    cfg.max_random_integer = st.configuration.max_random_integer;
+    cfg.min_random_float = st.configuration.min_random_float;
+    cfg.max_random_float = st.configuration.max_random_float;
+    PushState {
+        bool_stack: PushStack::from_vec(bools),
+        code_stack: PushStack::from_vec(code),
+        exec_stack: PushStack::from_vec(exec),
+        float_stack: PushStack::from_vec(flts),
+        index_stack: PushStack::from_vec(index),
+        int_stack: PushStack::from_vec(ints),
+        name_stack: PushStack::from_vec(names),
+        bool_vector_stack: PushStack::from_vec(bvs),
+        float_vector_stack: PushStack::from_vec(fvs),
+        int_vector_stack: PushStack::from_vec(ivs),
+        input_stack: input,
+        output_stack: output,
+        graph_stack: PushBuffer::new(BufferType::Stack, 1),
+        name_bindings: HashMap::new(),
+        configuration: cfg,
+        quote_name: st.quote_name,
+        send_name: st.send_name,
+    }
+}
+
 // ------------------------------------------------------------------------------------------------
 // Snapshot
 
@@ -245,6 +394,14 @@ pub const ITEM0: ItemSum = ItemSum { kind: 0, payload: 0 };
 
 pub type VecSeq<T> = Seq<Seq<T, NL>, NV>;
 
+/// snapshot of one queued message; queues are stored oldest first
+#[derive(Clone, Copy)]
+pub struct MsgSnap {
+    pub h: Seq<i32, NL>,
+    pub b: Seq<bool, NL>,
+}
+pub type QSeq = Seq<MsgSnap, NQ>;
+
 #[derive(Clone, Copy)]
 pub struct Snap {
     pub int: Seq<i32, NS>,
@@ -259,6 +416,8 @@ pub struct Snap {
     pub fvec: VecSeq<f32>,
     pub input_len: usize,
     pub output_len: usize,
+    pub inq: QSeq,
+    pub outq: QSeq,
     pub graph_len: usize,
     pub bindings: usize,
     pub quote: bool,
@@ -301,6 +460,33 @@ pub fn item_sum(it: &Item) -> ItemSum {
     }
 }
 
+fn snap_queue(q: &PushBuffer<PushMessage>) -> QSeq {
+    let z = MsgSnap { h: Seq::new(0), b: Seq::new(false) };
+    let mut out: QSeq = Seq::new(z);
+    out.len = q.size();
+    let mut i = 0;
+    while i < NQ {
+        if i < out.len {
+            // Queue kind: position 0 is the oldest message
+            let m = q.get(i).unwrap();
+            out.a[i].h.len = m.header.values.len();
+            out.a[i].b.len = m.body.values.len();
+            let mut j = 0;
+            while j < NL {
+                if j < m.header.values.len() {
+                    out.a[i].h.a[j] = m.header.values[j];
+                }
+                if j < m.body.values.len() {
+                    out.a[i].b.a[j] = m.body.values[j];
+                }
+                j += 1;
+            }
+        }
+        i += 1;
+    }
+    out
+}
+
 pub fn snap(st: &PushState) -> Snap {
     let mut s = Snap {
         int: Seq::new(0),
@@ -315,6 +501,8 @@ pub fn snap(st: &PushState) -> Snap {
         fvec: Seq::new(Seq::new(0.0)),
         input_len: st.input_stack.size(),
         output_len: st.output_stack.size(),
+        inq: snap_queue(&st.input_stack),
+        outq: snap_queue(&st.output_stack),
         graph_len: st.graph_stack.size(),
         bindings: st.name_bindings.len(),
         quote: st.quote_name,
@@ -408,8 +596,9 @@ pub fn snap(st: &PushState) -> Snap {
 // ------------------------------------------------------------------------------------------------
 // Comparison (floats: bit-equal, or both NaN)
 
+/// float results: equal as floats (so +0.0 == -0.0), or both NaN (payloads are not compared)
 pub fn feq(a: f32, b: f32) -> bool {
-    a.to_bits() == b.to_bits() || (a.is_nan() && b.is_nan())
+    a == b || (a.is_nan() && b.is_nan())
 }
 
 pub fn eq_i32<const N: usize>(a: &Seq<i32, N>, b: &Seq<i32, N>) -> bool {
@@ -538,28 +727,48 @@ pub fn eq_fvec(a: &VecSeq<f32>, b: &VecSeq<f32>) -> bool {
     }
     true
 }
+pub fn eq_queue(a: &QSeq, b: &QSeq) -> bool {
+    if a.len != b.len {
+        return false;
+    }
+    let mut i = 0;
+    while i < NQ {
+        if i < a.len && !(eq_i32(&a.a[i].h, &b.a[i].h) && eq_bool(&a.a[i].b, &b.a[i].b)) {
+            return false;
+        }
+        i += 1;
+    }
+    true
+}
 pub fn eq_misc(a: &Snap, b: &Snap) -> bool {
     a.input_len == b.input_len
         && a.output_len == b.output_len
+        && eq_queue(&a.inq, &b.inq)
+        && eq_queue(&a.outq, &b.outq)
         && a.graph_len == b.graph_len
         && a.bindings == b.bindings
         && a.quote == b.quote
         && a.send == b.send
 }
 
-/// Field-by-field comparison with one assertion per stack so that a counterexample names the stack.
+/// Field-by-field comparison, one assertion per stack so that a counterexample names the stack.
+/// The assertions sit on separate branches of a nondeterministic choice: Kani's assert! also assumes
+/// its condition, so in a straight sequence a failing earlier assertion would mask the later ones.
 pub fn assert_snap_eq(got: &Snap, want: &Snap) {
-    assert!(eq_i32(&got.int, &want.int), "INTEGER stack differs from the reference");
-    assert!(eq_f32(&got.flt, &want.flt), "FLOAT stack differs from the reference");
-    assert!(eq_bool(&got.boo, &want.boo), "BOOLEAN stack differs from the reference");
-    assert!(eq_name(&got.name, &want.name), "NAME stack differs from the reference");
-    assert!(eq_items(&got.code, &want.code), "CODE stack differs from the reference");
-    assert!(eq_items(&got.exec, &want.exec), "EXEC stack differs from the reference");
-    assert!(eq_index(&got.index, &want.index), "INDEX stack differs from the reference");
-    assert!(eq_bvec(&got.bvec, &want.bvec), "BOOLVECTOR stack differs from the reference");
-    assert!(eq_ivec(&got.ivec, &want.ivec), "INTVECTOR stack differs from the reference");
-    assert!(eq_fvec(&got.fvec, &want.fvec), "FLOATVECTOR stack differs from the reference");
-    assert!(eq_misc(got, want), "queues / bindings / flags differ from the reference");
+    let which: u8 = kani::any();
+    match which {
+        0 => assert!(eq_i32(&got.int, &want.int), "INTEGER stack differs from the reference"),
+        1 => assert!(eq_f32(&got.flt, &want.flt), "FLOAT stack differs from the reference"),
+        2 => assert!(eq_bool(&got.boo, &want.boo), "BOOLEAN stack differs from the reference"),
+        3 => assert!(eq_name(&got.name, &want.name), "NAME stack differs from the reference"),
+        4 => assert!(eq_items(&got.code, &want.code), "CODE stack differs from the reference"),
+        5 => assert!(eq_items(&got.exec, &want.exec), "EXEC stack differs from the reference"),
+        6 => assert!(eq_index(&got.index, &want.index), "INDEX stack differs from the reference"),
+        7 => assert!(eq_bvec(&got.bvec, &want.bvec), "BOOLVECTOR stack differs from the reference"),
+        8 => assert!(eq_ivec(&got.ivec, &want.ivec), "INTVECTOR stack differs from the reference"),
+        9 => assert!(eq_fvec(&got.fvec, &want.fvec), "FLOATVECTOR stack differs from the reference"),
+        _ => assert!(eq_misc(got, want), "queues / bindings / flags differ from the reference"),
+    }
 }
 
 pub fn icache() -> InstructionCache {
